@@ -366,12 +366,16 @@ func (s *Seq) checkSearch(q *Query, mode string, limit int, tagOv, ctx string) {
 		if sr.Err() == nil {
 			// on an empty collection an empty answer is also a valid result
 			if len(s.M.Objs) == 0 {
+				s.loose("bad-args-on-empty:"+expErr+"|"+q.String(), "empty-result")
 				if objs, err := sr.Collect(); err != nil || len(objs) != 0 {
 					s.fail("args", "bad-args-yield-objects", "%s: unevaluable query returned %d objects, err=%v", ctx, len(objs), err)
 				}
 				return
 			}
 			s.fail("args", "bad-args-no-error:"+expErr, "%s: expected error class %s, search reports none (Len=%d)", ctx, expErr, sr.Len())
+		}
+		if len(s.M.Objs) == 0 {
+			s.loose("bad-args-on-empty:"+expErr+"|"+q.String(), "error")
 		}
 		if objs, err := sr.Collect(); err == nil || len(objs) != 0 {
 			s.fail("args", "errored-search-yields-objects", "%s: search with Err()=%v collected %d objects, err=%v", ctx, sr.Err(), len(objs), err)
@@ -704,4 +708,10 @@ func (s *Seq) genBadCmp(r *simrt.Rand) Cmp {
 		path = "S"
 	}
 	return Cmp{Path: path, Op: "~=", V: Val{T: "string", S: []string{"(", "[a", "a{2,1}", "(?P<n"}[r.Intn(4)]}}
+}
+
+func (s *Seq) loose(key, val string) {
+	if s.Loose != nil {
+		s.Loose[fmt.Sprintf("%s|step%d", key, s.step)] = val
+	}
 }
